@@ -279,6 +279,16 @@ def r201(facts, res):
                 res.bad(R, key, loc_of(b, bb), 'narrowing of %s is not bounded: %s' % (text, '; '.join(why) or 'vector shrinks before the guard'),
                         {'function': b.path, 'block': bb})
             continue
+        if kind in ('len', 'enum-index') and vk is not None and b.lty(vk[0]).startswith('&') and not b.lty(vk[0]).startswith('&mut ') and b.kind != 'closure' \
+                and (1 <= vk[0] <= b.arg_count or len(b.defs().get(vk[0], [])) == 1):
+            # P2': an index into / the length of an INPUT container borrowed immutably for the whole call: bounded when a "not big enough"
+            # guard on that same container dominates the cast (nothing can grow it in between)
+            gs = [g for g in guards(b) if g[1] == vk and b.dominates(g[0], bb)]
+            if gs:
+                idx = per.get((fn, text), 0)
+                per[(fn, text)] = idx + 1
+                res.ok(R, '%s/%s#%d' % (fn, text, idx), loc_of(b, bb), 'bounded by the guard on the same immutably borrowed input container at line %s' % b.term(gs[0][0]).get('line'))
+                continue
         if reads_constructed(facts, b) and not (kind in ('len', 'enum-index') and local_vec):
             np1 += 1
             continue
